@@ -405,6 +405,24 @@ def corpus(c, small=False):
     return s
 
 
+def random_schemas(c, n, size=7):
+    """n random TL1 schemas from checks/schemagen.py (seeded from the check's PRNG), written under the check's work directory.
+    They are optional: a schema the kernel rejects or whose generated code does not build (C14's business) is skipped with a note."""
+    from checks import schemagen
+    from vlib.core import SplitMix64
+    out = []
+    for k in range(n):
+        seed = c.rng.next()
+        text, _ = schemagen.gen_schema(SplitMix64(seed), size + k % 4)
+        path = os.path.join(c.workdir, "rand_%d.tl" % k)
+        open(path, "w").write(text)
+        sc = Schema("rnd%d" % k, [path], tl2="*" if k % 2 == 0 else "", sanity=True)
+        sc.optional = True
+        sc.seed = seed
+        out.append(sc)
+    return out
+
+
 def prepare(c, schemas=None):
     """Build tl2gen + hcodec from the working tree, export descriptors, generate code, link factory items.
     Returns (model_cmd, hcodec_cmd, [Schema with .items])."""
@@ -415,10 +433,17 @@ def prepare(c, schemas=None):
     for sc in (schemas if schemas is not None else corpus(c)):
         d, err = export_desc(c, hcodec, sc)
         if d is None:
+            if getattr(sc, "optional", False):
+                c.count("random-schema:rejected-by-kernel")
+                continue
             c.proof_failures.append({"stage": "descriptor export", "schema": sc.sid, "detail": err})
             continue
         ok, msg = generate(c, tl2gen, sc)
         if not ok:
+            if getattr(sc, "optional", False):
+                c.count("random-schema:generated-code-does-not-build")
+                c.notes.append("random schema seed %s skipped: %s" % (getattr(sc, "seed", "?"), msg.strip().split("\n")[-1][:160]))
+                continue
             c.proof_failures.append({"stage": "generate", "schema": sc.sid, "detail": msg})
             continue
         sc.items = link_items(sc)
